@@ -84,7 +84,14 @@ type GuardDirective struct {
 	Prop, Kind, Arg string
 }
 
+type EffectDirective struct {
+	Prop, Kind string
+	Funcs      []string
+	Expr       string
+}
+
 type ContractFile struct {
+	Effects  []EffectDirective
 	Guards   []GuardDirective
 	TypeInvs []*TypeInv
 	Sweeps []SweepDirective
@@ -145,6 +152,30 @@ func parseContracts(path string) (*ContractFile, error) {
 			sp.Macro = strings.HasPrefix(t, "macro ")
 			cf.Specs[sp.Name] = sp
 			cf.SpecOrder = append(cf.SpecOrder, sp.Name)
+			continue
+		case strings.HasPrefix(t, "effects C"):
+			fs := strings.Fields(t)
+			if len(fs) < 4 {
+				return nil, fmt.Errorf("line %d: bad effects directive", no)
+			}
+			d := EffectDirective{Prop: fs[1], Kind: fs[2]}
+			rest := strings.TrimSpace(strings.SplitN(t, fs[2], 2)[1])
+			if d.Kind == "guarded" {
+				parts := strings.SplitN(rest, " unless ", 2)
+				if len(parts) != 2 {
+					return nil, fmt.Errorf("line %d: effects guarded F unless expr", no)
+				}
+				d.Funcs = []string{strings.TrimSpace(parts[0])}
+				d.Expr = strings.TrimSpace(parts[1])
+			} else {
+				for _, f := range strings.Split(rest, ",") {
+					if f = strings.TrimSpace(f); f != "" {
+						d.Funcs = append(d.Funcs, f)
+					}
+				}
+			}
+			cf.Effects = append(cf.Effects, d)
+			cur = nil
 			continue
 		case strings.HasPrefix(t, "guard "):
 			fs := strings.Fields(t)
